@@ -87,7 +87,7 @@ def calm_transfer(S, cid, name, content, now, opts=b''):
 
 
 def run(ctx, build):
-    R = ctx.runner('Tftp')
+    R = ctx.try_runner('Tftp')
     rng = ctx.rng
     nsess = 300 if ctx.thorough else 80
     if ctx.widen:
@@ -117,6 +117,8 @@ def run(ctx, build):
                 d = gen_fuzz(rng) if rng.random() < 0.8 else bytes(gen_packet(rng))
                 if rng.random() < 0.01:
                     d = d + bytes(rng.getrandbits(8) for _ in range(rng.choice([2000, 65507 - len(d)])))
+                if rng.random() < 0.03:
+                    d = b'\0\1' + bytes(rng.choice(b'Aa/.b') for _ in range(rng.choice([256, 480, 507, 508, 509, 520, 2000]))) + b'\0octet\0'
                 if rng.random() < 0.04:
                     d = b'\0\1' + rng.choice([b'ok.bin', b'secret', b'dir', b'io', b'nope', 'café'.encode(), b'ok.bin\0octet\0blksize\0' + rng.choice([b'7', b'8', b'inf', b'1e9']) + b'\0x']) + b'\0octet\0' + \
                         rng.choice([b'', b'timeout\0inf\0', b'timeout\0nan\0', b'timeout\x001e400\0', b'utimeout\0abc\0', b'blksize\0' + str(2 ** 70).encode() + b'\0'])
